@@ -2,7 +2,7 @@ PROPERTY = 'C05'
 PARTS = ['simple', 'auto', 'static', 'affinity']
 UNITS = {
   'range': dict(wrapper='w_range.cpp', mode='seq', selftest=True),
-  'range_w16': dict(wrapper='w_range.cpp', mode='seq', cxxflags=['-DVP_W=16']),
+  'range_w10': dict(wrapper='w_range.cpp', mode='seq', cxxflags=['-DVP_W=10']),
   'rvec': dict(wrapper='w_rvec.cpp', mode='seq', selftest=True, cxxflags=['-fno-rtti']),
 }
 for _i, _n in enumerate(PARTS):
@@ -63,9 +63,9 @@ HARNESSES = [
                'TYPE 0/1/2 MODE 1': 'first,last symbolic at full width, step concrete per scenario (1, 2, 2^32+1, 2^63+5, 2^30+1), any iteration count',
                'chunk': 'any [cb,ce) of the iteration space with <=3 elements',
                'not decided': 'symbolic 64-bit step with unbounded quotient (no verdict in 10 min even for a 4-bit step; also concrete step 3: ~200 s CPU without verdict)'}),
-  dict(name='strided_w16', unit='range_w16', harness='h_strided.c', defines={'CH': 3}, cbmc=['--unwind', '6'], tiers=T,
+  dict(name='strided_w10', unit='range_w10', harness='h_strided.c', defines={'CH': 3}, cbmc=['--unwind', '6'], tiers=T,
        scenarios=[{'TYPE': 3, 'MODE': 1, 'CTX': 0}], timeout=3600,
-       desc='as strided TYPE 3 with a 16-bit wrap-around Index class', bounds={'first,last,step': 'all 16-bit values, step>0'}),
+       desc='as strided TYPE 3 with a 10-bit wrap-around Index class (12 bit: no verdict in 730 s CPU, 16 bit: none in 1 h)', bounds={'first,last,step': 'all 10-bit values, step>0'}),
   dict(name='rvec', unit='rvec', harness='h_rvec.c', cbmc=['--unwind', '10'], timeout=1200,
        scenarios_quick=[{'OP': 0, 'HEAD': h, 'SIZE': z} for h in (0, 4, 7) for z in (1, 4, 8)] + [{'OP': 1}, {'OP': 2}],
        scenarios_thorough=[{'OP': 0, 'HEAD': h, 'SIZE': z} for h in range(8) for z in range(1, 9)] + [{'OP': 1}, {'OP': 2}],
@@ -86,7 +86,6 @@ HARNESSES = [
   _step(2, W, 2, 3, [{'ROOT': 0}], T, timeout=3600),
   _step(2, D, 3, 4, [{'ROOT': 0, 'GFIX': 1, 'BFIX': 0}, {'ROOT': 2, 'GFIX': 1, 'BFIX': 0}], T, timeout=3600),
   _step(2, D, 3, 1, [{'ROOT': 2, 'GFIX': 1, 'BFIX': 0}], T, timeout=3600),
-  _step(1, D, 3, 2, [{'ROOT': 0, 'GFIX': 1, 'BFIX': 0}], T, timeout=3600),
   _step(1, D, 2, 3, [{'ROOT': 2, 'GFIX': 1, 'BFIX': 0}, {'ROOT': 0, 'GFIX': 2, 'BFIX': 9}], T, timeout=3600),
   _step(3, D, 2, 3, [{'ROOT': 0, 'GFIX': 1, 'BFIX': 0}, {'ROOT': 2, 'GFIX': 1, 'BFIX': 0}], T, timeout=3600),
   _step(3, D, 2, 1, [{'ROOT': 2, 'GFIX': 1, 'BFIX': 0}], T, timeout=3600),
@@ -106,8 +105,8 @@ MANIFEST = dict(
              'and a task step lemma for each of the four partitioners (one real start_for::execute from an arbitrary partition state satisfying an inductive invariant, '
              'symbolic steal/affinity flags): the body chunks and the spawned subranges tile the task range exactly, non-empty and disjoint, only divisible ranges are split. '
              'Exactly-once for whole loops of any size follows by induction over the task tree (paper argument on top of the solver-decided step and base case).',
-  level_note='Bounds per harness in evidence: task step covers ranges up to grainsize*2^K (K=1 at full symbolic width, K=2..4 with concrete begin/grain), max_concurrency 1..4 concrete; '
-             'strided arithmetic is decided for an 8/16-bit index type exhaustively and for size_t/int/long on two sub-families (<=2 iterations at full width; concrete steps); '
+  level_note='Bounds per harness in evidence: task step covers ranges up to grainsize*2^K (K=1..2 at full symbolic width, K=1..4 with concrete begin/grain; auto/affinity up to K=2), max_concurrency 1..4 concrete; '
+             'strided arithmetic is decided for an 8-bit (thorough: 10-bit) index type exhaustively and for size_t/int/long on two sub-families (<=2 iterations at full width; concrete steps); '
              'whole-loop runs (thorough) only for simple/static partitioner with <=4 elements. parallel_for_each and parallel_invoke are not covered. '
              'Tasks are atomic in the bag model (overlap of two task bodies is outside). Trusted: clang-14 IR, tools/ir2c.py (selftest differential on float/double code), cbmc.',
 )
